@@ -1,0 +1,30 @@
+//go:build verif
+
+package mount
+
+// Contracts for govc, the contract verifier under /verif (see /verif/DESIGN.md).
+// This file contains comments only; it adds no code under any build tag.
+
+//@ syncmap FS.mounts key string val hackpadfs.FS
+
+//@ spec cand(k string, p string) := k == p || hasPrefix(p, k + "/")
+
+//@ type FS invariant fs: forall(k, dom(fs.mounts), VP(k) && k != ".")
+
+//@ func (fs *FS) mountPoint(path string) (m hackpadfs.FS, mountPoint string, subPath string)
+//@   props C06
+//@   requires fs != nil
+//@   range 1 over fs.mounts visited V key k
+//@   range 1 use vpBasic(k)
+//@   range 1 invariant "sel" (resultPath == "" && resultFS == fs.rootFS && forall(k, V, !cand(k, path))) ||
+//@               (in(resultPath, V) && cand(resultPath, path) && resultFS == fs.mounts[resultPath] &&
+//@                forall(k, V, implies(cand(k, path), len(k) <= len(resultPath))))
+//@   range 1 onbreak "exact" resultPath == path && in(path, dom(fs.mounts)) && resultFS == fs.mounts[path]
+//@   use vpSplit(mountPoint, subPath)
+//@   use vpBasic(path)
+//@   use vpBasic(subPath)
+//@   ensures "longest" forall(k, dom(fs.mounts), implies(cand(k, path), len(k) <= len(mountPoint)))
+//@   ensures "selected" (mountPoint == "." && m == fs.rootFS && forall(k, dom(fs.mounts), !cand(k, path))) ||
+//@                      (in(mountPoint, dom(fs.mounts)) && cand(mountPoint, path) && m == fs.mounts[mountPoint])
+//@   ensures "remainder" implies(VP(path), VP(subPath) && pjoin(mountPoint, subPath) == path)
+//@   nopanic
